@@ -62,8 +62,10 @@ theorem copy_unmark_streamSame {s : Seg} {i rf : Nat} (his : i < s.slots.size) (
       · rw [(ss.slot j).2.2.2]; exact ((h1 j).2.2 hji).2
   split
   · split
-    · exact key _ (child_same _ _ _)
-    · exact key _ (SameT.tr (child_same _ _ _) (SameT.updParent _ _ _))
+    · exact key _ (SameT.updParent _ _ _)
+    · split
+      · exact key _ (child_same _ _ _)
+      · exact key _ (SameT.tr (child_same _ _ _) (SameT.updParent _ _ _))
   · exact key _ (SameT.rfl' _)
 
 theorem putCopy_PS (c : Ctx) (r : Int) (h : PS c) : OutcomeP PS (opPutCopy c r) := by
